@@ -150,6 +150,8 @@ def check_model(model, globals0, limit=LIMIT, validate=True, hosts=None):
             raise Violation('re-executing the same model with equal globals gives different observations', d, 're-execution')
         if model != before:
             raise Violation('execute_script modified the model on re-execution', d, 'model-modified')
+    if not hosts:
+        check_followup(model, globals0, limit, d)
     _counter[0] += 1
     if not hosts and _counter[0] % 3 == 1:
         # nobody listens: without a logFn the log statements still run (their arguments are evaluated - calls in them happen), only the text goes nowhere
@@ -195,6 +197,49 @@ def check_model(model, globals0, limit=LIMIT, validate=True, hosts=None):
 
 
 _counter = [0]
+
+
+def _run(model, opts):
+    try:
+        return ('ok', impl.bs.execute_script(model, opts))
+    except impl.bs.RuntimeError as e:
+        return ('runtime-error', str(e))
+    except Exception as e:  # pylint: disable=broad-except
+        return ('host-exception', '%s: %s' % (type(e).__name__, e))
+
+
+def check_followup(model, globals0, limit, d):
+    """A second model that calls the functions the first one bound, run on the same globals object: once with the SAME options object as the first run and
+    once with a fresh options object (own log function, own count). Both second runs must agree in outcome, log and statement count - whatever the first
+    run did (completed, raised, ran out of budget): the options of a run belong to that run, bound functions belong to the globals."""
+    names = []
+    for s_ in model['statements']:
+        if 'function' in s_ and s_['function']['name'] not in names:
+            names.append(s_['function']['name'])
+    follow = {'statements': [log_stmt('phase2')] + [{'expr': {'name': 'r2', 'expr': {'function': {'name': n, 'args': [{'number': 1.0}]}}}} for n in names[:3]] +
+              [log_stmt('phase2 end'), {'return': {'expr': {'variable': 'r2'}}}]}
+    seen = []
+    for fresh in (False, True):
+        logs1 = []
+        g = copy.deepcopy(globals0)
+        opts1 = {'globals': g, 'logFn': lambda m, logs1=logs1: logs1.append(('log', m)), 'maxStatements': limit}
+        _run(model, opts1)
+        n1 = len(logs1)
+        if fresh:
+            logs2 = []
+            opts2 = {'globals': g, 'logFn': lambda m, logs2=logs2: logs2.append(('log', m)), 'maxStatements': limit}
+            res2 = _run(follow, opts2)
+            if len(logs1) != n1:
+                raise Violation('a run with its own options object and log function wrote %r to the log function of the EARLIER run' % (logs1[n1:][:3],), dict(d, followup=follow),
+                                'followup-logs-to-earlier-run')
+            seen.append((res2, logs2, opts2.get('statementCount')))
+        else:
+            res2 = _run(follow, opts1)
+            seen.append((res2, logs1[n1:], opts1.get('statementCount')))
+    (ra, la, ca), (rb, lb, cb) = seen
+    if ra[0] != rb[0] or (ra[0] != 'ok' and ra != rb) or (ra[0] == 'ok' and not values_equal(ra[1], rb[1], lambda x, y: True)) or la != lb or ca != cb:
+        raise Violation('a follow-up run that calls the bound functions gives %r, %d log entries, count %r with the options object of the first run, but %r, %d log entries, '
+                        'count %r with a fresh options object' % (ra, len(la), ca, rb, len(lb), cb), dict(d, followup=follow), 'followup-depends-on-options-object')
 
 
 def _with_deadline(seconds, fn):
